@@ -3,6 +3,7 @@ package main
 import (
 	"fmt"
 	"go/token"
+	"go/types"
 	"sort"
 	"strings"
 
@@ -23,139 +24,308 @@ const maxAliasTries = 12
 
 var pseudoLocal = map[string]bool{"complit": true, "varargs": true, "slicelit": true, "makeslice": true, "makemap": true, "makechan": true, "new": true, "": true, "rangeindex": true, "rangeiter": true}
 
-// namedLocals lists the named locals of fn in order of appearance.
-func namedLocals(fn *ssa.Function) []string {
-	var out []string
-	seen := map[string]bool{}
+// localInfo is one named local of a function body: its name ("x", or "x#2" for the second variable of
+// that name in allocation order) and its type.
+type localInfo struct {
+	Name, Type string
+}
+
+func typeKey(t types.Type) string {
+	return strings.ReplaceAll(types.TypeString(t, func(p *types.Package) string { return p.Name() }), " ", "")
+}
+
+// bodyLocals lists the named locals of fn in order of appearance.
+func bodyLocals(fn *ssa.Function) []localInfo {
+	var out []localInfo
+	seen := map[string]int{}
+	isParam := map[string]bool{}
+	for _, p := range fn.Params {
+		isParam[p.Name()] = true
+	}
 	for _, b := range fn.Blocks {
 		for _, ins := range b.Instrs {
 			a, ok := ins.(*ssa.Alloc)
-			if !ok || pseudoLocal[a.Comment] || !token.IsIdentifier(a.Comment) || seen[a.Comment] {
+			if !ok || pseudoLocal[a.Comment] || !token.IsIdentifier(a.Comment) {
 				continue
 			}
-			seen[a.Comment] = true
-			out = append(out, a.Comment)
+			if isParam[a.Comment] && seen[a.Comment] == 0 && b.Index == 0 {
+				// the spill slot of a parameter (bound by position through "params")
+				seen[a.Comment]++
+				continue
+			}
+			seen[a.Comment]++
+			n := a.Comment
+			if seen[a.Comment] > 1 {
+				n = fmt.Sprintf("%s#%d", a.Comment, seen[a.Comment])
+			}
+			out = append(out, localInfo{n, typeKey(deref(a.Type()))})
 		}
 	}
 	return out
 }
 
-func aliasCandidates(fn *ssa.Function, ct *Contract) []map[string]string {
-	have := map[string]bool{}
-	locals := namedLocals(fn)
-	for _, n := range locals {
-		have[n] = true
+func namedLocals(fn *ssa.Function) []string {
+	var out []string
+	for _, l := range bodyLocals(fn) {
+		out = append(out, l.Name)
 	}
-	for _, p := range fn.Params {
-		have[p.Name()] = true
-	}
-	listed := map[string]bool{}
-	var missing []string
-	for _, n := range ct.Locals {
-		listed[n] = true
-		if !have[n] {
-			missing = append(missing, n)
+	return out
+}
+
+func aliasKey(m map[string]string) string {
+	var ks []string
+	for k, v := range m {
+		if k != v {
+			ks = append(ks, k+"="+v)
 		}
 	}
-	if len(missing) == 0 {
+	sort.Strings(ks)
+	return strings.Join(ks, ",")
+}
+
+// aliasCandidates proposes bindings of the contract's local names to the body's locals, most plausible
+// first. The contract lists its target's locals with their types in declaration order ("locals a:T b:U");
+// per type, when the body declares as many locals as the contract lists, they correspond by position (a pure
+// rename, whatever the new names are); otherwise the names both sides know keep their meaning and the
+// contract's remaining names are bound to the body's remaining locals of that type, order-preserving
+// injections first. The identity binding is not among the candidates.
+func aliasCandidates(fn *ssa.Function, ct *Contract) []map[string]string {
+	body := bodyLocals(fn)
+	if len(ct.Locals) == 0 {
+		return nil
+	}
+	same := len(body) == len(ct.Locals)
+	if same {
+		for i, l := range body {
+			if l.Name != ct.Locals[i] || (ct.LocalTypes[l.Name] != "" && ct.LocalTypes[l.Name] != l.Type) {
+				same = false
+			}
+		}
+	}
+	if same {
 		return nil
 	}
 	paramName := map[string]bool{}
 	for _, p := range fn.Params {
 		paramName[p.Name()] = true
 	}
-	var fresh []string
-	for _, n := range locals {
-		if !listed[n] && !paramName[n] {
-			fresh = append(fresh, n)
+	// group by type ("" = untyped legacy entry: any type)
+	typed := true
+	for _, n := range ct.Locals {
+		if ct.LocalTypes[n] == "" {
+			typed = false
 		}
 	}
-	if len(fresh) < len(missing) {
-		return nil
-	}
-	var out []map[string]string
-	// order-preserving injections first
-	var rec func(i, from int, cur []string)
-	rec = func(i, from int, cur []string) {
-		if len(out) >= 4*maxAliasTries {
-			return
+	type group struct{ c, b []string }
+	groups := map[string]*group{}
+	var order []string
+	grp := func(t string) *group {
+		if groups[t] == nil {
+			groups[t] = &group{}
+			order = append(order, t)
 		}
-		if i == len(missing) {
-			m := map[string]string{}
-			for k, n := range missing {
-				m[n] = cur[k]
+		return groups[t]
+	}
+	for _, n := range ct.Locals {
+		t := ct.LocalTypes[n]
+		if !typed {
+			t = ""
+		}
+		g := grp(t)
+		g.c = append(g.c, n)
+	}
+	for _, l := range body {
+		t := l.Type
+		if !typed {
+			t = ""
+		}
+		if groups[t] == nil {
+			continue
+		}
+		g := grp(t)
+		g.b = append(g.b, l.Name)
+	}
+	// per group: list of alternative partial bindings, most plausible first
+	var alts [][]map[string]string
+	for _, t := range order {
+		g := groups[t]
+		var opts []map[string]string
+		add := func(m map[string]string) {
+			k := aliasKey(m)
+			for _, o := range opts {
+				if aliasKey(o) == k {
+					return
+				}
 			}
+			opts = append(opts, m)
+		}
+		if len(g.c) == len(g.b) && typed {
+			m := map[string]string{}
+			for i := range g.c {
+				m[g.c[i]] = g.b[i]
+			}
+			add(m)
+		}
+		inB := map[string]bool{}
+		for _, n := range g.b {
+			inB[n] = true
+		}
+		inC := map[string]bool{}
+		for _, n := range g.c {
+			inC[n] = true
+		}
+		var missing, fresh []string
+		keep := map[string]string{}
+		for _, n := range g.c {
+			if inB[n] {
+				keep[n] = n
+			} else {
+				missing = append(missing, n)
+			}
+		}
+		for _, n := range g.b {
+			if !inC[n] && !paramName[n] {
+				fresh = append(fresh, n)
+			}
+		}
+		if len(missing) == 0 {
+			add(keep)
+		} else if len(fresh) >= len(missing) {
+			var rec func(i, from int, cur []string)
+			rec = func(i, from int, cur []string) {
+				if len(opts) >= 6 {
+					return
+				}
+				if i == len(missing) {
+					m := map[string]string{}
+					for k, v := range keep {
+						m[k] = v
+					}
+					for k, n := range missing {
+						m[n] = cur[k]
+					}
+					add(m)
+					return
+				}
+				for j := from; j < len(fresh); j++ {
+					rec(i+1, j+1, append(cur[:len(cur):len(cur)], fresh[j]))
+				}
+			}
+			rec(0, 0, nil)
+			var perm func(i int, used map[string]bool, cur map[string]string)
+			perm = func(i int, used map[string]bool, cur map[string]string) {
+				if len(opts) >= 10 {
+					return
+				}
+				if i == len(missing) {
+					m := map[string]string{}
+					for k, v := range keep {
+						m[k] = v
+					}
+					for k, v := range cur {
+						m[k] = v
+					}
+					add(m)
+					return
+				}
+				for _, f := range fresh {
+					if used[f] {
+						continue
+					}
+					used[f] = true
+					cur[missing[i]] = f
+					perm(i+1, used, cur)
+					delete(cur, missing[i])
+					used[f] = false
+				}
+			}
+			perm(0, map[string]bool{}, map[string]string{})
+		} else {
+			// fewer locals of this type than the contract names: the names both sides know keep their meaning
+			add(keep)
+		}
+		if len(opts) == 0 {
+			opts = append(opts, map[string]string{})
+		}
+		alts = append(alts, opts)
+	}
+	// combine: first choice everywhere, then vary one group at a time, then the rest of the product
+	var out []map[string]string
+	seen := map[string]bool{"": true}
+	emit := func(choice []int) {
+		m := map[string]string{}
+		for gi, ci := range choice {
+			for k, v := range alts[gi][ci] {
+				m[k] = v
+			}
+		}
+		k := aliasKey(m)
+		if !seen[k] {
+			seen[k] = true
 			out = append(out, m)
-			return
-		}
-		for j := from; j < len(fresh); j++ {
-			rec(i+1, j+1, append(cur[:len(cur):len(cur)], fresh[j]))
 		}
 	}
-	rec(0, 0, nil)
-	// then the remaining injections
-	seen := map[string]bool{}
-	key := func(m map[string]string) string {
-		var ks []string
-		for k, v := range m {
-			ks = append(ks, k+"="+v)
+	base := make([]int, len(alts))
+	emit(base)
+	for gi := range alts {
+		for ci := 1; ci < len(alts[gi]); ci++ {
+			c := append([]int(nil), base...)
+			c[gi] = ci
+			emit(c)
 		}
-		sort.Strings(ks)
-		return strings.Join(ks, ",")
 	}
-	for _, m := range out {
-		seen[key(m)] = true
-	}
-	var perm func(i int, used map[string]bool, cur map[string]string)
-	perm = func(i int, used map[string]bool, cur map[string]string) {
+	var prod func(gi int, c []int)
+	prod = func(gi int, c []int) {
 		if len(out) >= 8*maxAliasTries {
 			return
 		}
-		if i == len(missing) {
-			m := map[string]string{}
-			for k, v := range cur {
-				m[k] = v
-			}
-			if !seen[key(m)] {
-				seen[key(m)] = true
-				out = append(out, m)
-			}
+		if gi == len(alts) {
+			emit(append([]int(nil), c...))
 			return
 		}
-		for _, f := range fresh {
-			if used[f] {
-				continue
-			}
-			used[f] = true
-			cur[missing[i]] = f
-			perm(i+1, used, cur)
-			delete(cur, missing[i])
-			used[f] = false
+		for ci := range alts[gi] {
+			prod(gi+1, append(c, ci))
 		}
 	}
-	perm(0, map[string]bool{}, map[string]string{})
+	prod(0, nil)
 	return out
 }
 
 // verifyFunctionRenamed is verifyFunction plus the search for a binding of
 // renamed locals. It returns an unsolved report.
 func verifyFunctionRenamed(l *Loaded, specs *Specs, ct *Contract, timeout, seed int) (*FuncReport, *World) {
-	rep, w := verifyFunction(l, specs, ct)
-	if rep.Unsupported == "" || !strings.HasPrefix(rep.Unsupported, "unknown identifier") || len(ct.Locals) == 0 {
-		return rep, w
-	}
 	sp := l.SPkgs[ct.Pkg]
-	if sp == nil {
-		return rep, w
+	var fn *ssa.Function
+	if sp != nil {
+		fn = allFunctions(l, sp)[ct.Name]
 	}
-	fn := allFunctions(l, sp)[ct.Name]
-	if fn == nil {
-		return rep, w
+	var cands []map[string]string
+	if fn != nil && len(ct.Locals) > 0 {
+		cands = aliasCandidates(fn, ct)
 	}
+	if len(cands) == 0 {
+		return verifyFunction(l, specs, ct)
+	}
+	// the body's locals are not the ones the contract lists: the identity binding is tried after the first
+	// candidate (by position) when every name the contract mentions still exists, before it otherwise
+	proves := func(r *FuncReport, w *World) bool {
+		if r.Unsupported != "" {
+			return false
+		}
+		solveAll(w, r.Obls, timeout, seed)
+		for _, o := range r.Obls {
+			if !o.ok() && !(o.Clause != nil && o.Clause.Withdrawn) && !o.KnownFailing {
+				return false
+			}
+		}
+		return true
+	}
+	all := append([]map[string]string{cands[0], nil}, cands[1:]...)
 	tries := 0
 	var firstRep *FuncReport
 	var firstAlias map[string]string
-	for _, al := range aliasCandidates(fn, ct) {
+	haveFirst := false
+	for _, al := range all {
 		r2, w2 := verifyFunctionAliased(l, specs, ct, al)
 		if r2.Unsupported != "" {
 			continue // ill-sorted under this binding
@@ -164,20 +334,13 @@ func verifyFunctionRenamed(l *Loaded, specs *Specs, ct *Contract, timeout, seed 
 		if tries > maxAliasTries {
 			break
 		}
-		if firstRep == nil {
-			firstRep, firstAlias = r2, al
+		if !haveFirst {
+			firstRep, firstAlias, haveFirst = r2, al, true
 		}
-		solveAll(w2, r2.Obls, timeout, seed)
-		good := true
-		for _, o := range r2.Obls {
-			if !o.ok() && !(o.Clause != nil && o.Clause.Withdrawn) && !o.KnownFailing {
-				good = false
-				break
-			}
-		}
-		if good {
+		if proves(r2, w2) {
 			r3, w3 := verifyFunctionAliased(l, specs, ct, al)
 			r3.Renamed = aliasString(al)
+			r3.Alias = al
 			return r3, w3
 		}
 	}
@@ -186,15 +349,18 @@ func verifyFunctionRenamed(l *Loaded, specs *Specs, ct *Contract, timeout, seed 
 		// plausible one rather than "outside the subset"
 		r3, w3 := verifyFunctionAliased(l, specs, ct, firstAlias)
 		r3.Renamed = aliasString(firstAlias)
+		r3.Alias = firstAlias
 		return r3, w3
 	}
-	return rep, w
+	return verifyFunction(l, specs, ct)
 }
 
 func aliasString(al map[string]string) string {
 	var ks []string
 	for k, v := range al {
-		ks = append(ks, fmt.Sprintf("%s:=%s", k, v))
+		if k != v {
+			ks = append(ks, fmt.Sprintf("%s:=%s", k, v))
+		}
 	}
 	sort.Strings(ks)
 	return strings.Join(ks, " ")
@@ -237,6 +403,29 @@ func cmdNames(args []string) {
 		for _, p := range fn.Params {
 			ps = append(ps, p.Name())
 		}
-		fmt.Printf("%s\t%s\t%s\t%s\n", ct.File, ct.Name, strings.Join(ps, " "), strings.Join(namedLocals(fn), " "))
+		var ls, fvs []string
+		for _, li := range bodyLocals(fn) {
+			ls = append(ls, li.Name+":"+li.Type)
+		}
+		for _, fv := range fn.FreeVars {
+			fvs = append(fvs, fv.Name()+":"+typeKey(deref(fv.Type())))
+		}
+		// rangeindex ordinal -> loop ordinal
+		var ris []string
+		li := analyzeLoops(fn)
+		n := 0
+		for _, b := range fn.Blocks {
+			for _, ins := range b.Instrs {
+				if a, ok := ins.(*ssa.Alloc); ok && a.Comment == "rangeindex" {
+					n++
+					for h, k := range li.isHeader {
+						if rangeIndexAlloc(h) == a {
+							ris = append(ris, fmt.Sprintf("%d=%d", n, k))
+						}
+					}
+				}
+			}
+		}
+		fmt.Printf("%s\t%s\t%s\t%s\t%s\t%s\n", ct.File, ct.Name, strings.Join(ps, " "), strings.Join(ls, " "), strings.Join(fvs, " "), strings.Join(ris, " "))
 	}
 }
